@@ -113,6 +113,7 @@ def varInfo (g v : Nat) : Option VarInfo :=
   | 41, 3 => some { prefixed := some 5 }
   | 41, 4 => some { prefixed := some 9 }
   | 50, 1 => some { count := some 6 }
+  | 50, 2 => some { count := some 10 }
   | 50, 3 => some { count := some 6 }
   | 60, 1 => some { all := true }
   | 60, 2 => some { all := true, count := some 0 }
